@@ -161,7 +161,11 @@ func (f *Func) AssignIDs() error {
 				got := n.ID()
 				return errors.Errorf("invalid local ID in function %q, expected %s, got %s", f.Ident(), enc.LocalID(want), enc.LocalID(got))
 			}
-			n.SetID(id)
+			// Write the ID only when it changes: once assigned, concurrent printers
+			// read the IDs outside of the lock.
+			if n.ID() != id {
+				n.SetID(id)
+			}
 			id++
 		}
 		return nil
